@@ -10,13 +10,13 @@ def add(pid, engine, technique, text, note, ref):
 
 add("C01", "vp_sample",
     "bounded-exhaustive enumeration + proptest against an exact i128 reference formula",
-    "Every value of every 8/16/24-bit source (thorough: also 32-bit) against all 11 targets, structured product (top 24 bits exhaustive x low-part patterns) and proptest-random values for 48/64-bit sources, boundary sets, and the via-intermediate law on all admissible triples; compared with floor(amp*2^(t-s)) computed in i128. Exhaustive on the narrow formats, a structured sample on the wide ones: exploration, not proof.",
+    "Every value of every 8/16/24-bit source (thorough: also 32-bit) against all 11 targets, structured product (top 24 bits exhaustive x low-part patterns) and proptest-random values for 48/64-bit sources, boundary sets, and the via-intermediate law on all admissible triples; compared with floor(amp*2^(t-s)) computed in i128; each format's EQUILIBRIUM constant is the amplitude-0 value and maps onto every other format's. A panic inside a typed bulk loop is located in a second, guarded pass and reported with its case. Exhaustive on the narrow formats, a structured sample on the wide ones: exploration, not proof.",
     "Trusted: rustc/LLVM integer semantics, the i128 reference (8 lines), proptest, rayon. 48/64-bit sources are not exhausted.",
     "DESIGN.md §4 C01")
 
 add("C02", "vp_sample",
     "bounded-exhaustive enumeration + proptest against a soft-float / exact-truncation reference",
-    "int->float: every value of the <=24-bit sources (thorough: <=32-bit), structured values of the wider ones (incl., for every magnitude, the neighbourhood of the mantissa's rounding half-way point +-{0,1,2, a few low bits}: the values on which one rounding and two successive roundings disagree), bit-compared with a soft-float round-to-nearest-even reference, plus the int->float->int round trip wherever the width fits the mantissa. float->int: every f32 bit pattern of [-1,1) in the thorough tier (one seed-chosen pattern per 64 in quick) x 12 targets, f64 by proptest over sign/exponent/mantissa plus the truncation decision points and boundary patterns of both float types (the largest values below 1.0, every power of two down to 2^-70 with its neighbours, zeros, subnormals), compared with trunc(x*2^(bits-1)) on the decomposed float. f32->f64 over all 2^32 patterns (thorough), f64->f32 on random values, exact midpoints +-1ulp, the overflow threshold and the subnormal range.",
+    "int->float: every value of the <=24-bit sources (thorough: <=32-bit), structured values of the wider ones (incl., for every magnitude, the neighbourhood of the mantissa's rounding half-way point +-{0,1,2, a few low bits}: the values on which one rounding and two successive roundings disagree), bit-compared with a soft-float round-to-nearest-even reference, plus the int->float->int round trip wherever the width fits the mantissa. float->int: every f32 bit pattern of [-1,1) in the thorough tier (one seed-chosen pattern per 64 in quick) x 12 targets, f64 by proptest over sign/exponent/mantissa plus the truncation decision points and boundary patterns of both float types (the largest values below 1.0, every power of two down to 2^-70 with its neighbours, zeros, subnormals), compared with trunc(x*2^(bits-1)) on the decomposed float. custom-width samples built through From<backing integer> from out-of-range values convert like the in-range sample; f32->f64 over all 2^32 patterns (thorough), f64->f32 on random values, exact midpoints +-1ulp, the overflow threshold and the subnormal range.",
     "Trusted: the soft-float reference (cross-checked against hardware casts at start-up), IEEE semantics of the host, rustc/LLVM. f64 sources are sampled, not exhausted.",
     "DESIGN.md §4 C02")
 
@@ -28,7 +28,7 @@ add("C15", "vp_sample (two build configurations)",
 
 add("C03", "vp_sample",
     "proptest + bounded-exhaustive enumeration against a reference built from the exact conversion references and native companion arithmetic",
-    "Sample level: add_amp / mul_amp / to_signed_sample / to_float_sample for all 14 formats on boundary-biased and random operands (valid by construction), all values of the 8/16-bit formats against the identity operands (offset 0, offsets landing on MIN/MAX, gains 0, 1, 0.5). Frame level: every Frame method for every width 1..=32 (u8, i16, U48, f32), widths 1/2/5/32 and the bare-sample frame for all 14 formats; closures record their call order and arguments, channel contents are pairwise distinct, from_samples is driven with every short and long iterator length and with exact / (0, None) / (k < N, None) size hints, the channels() iterator is also used positionally (nth, skip, step_by) and its len() is read before every next() and after exhaustion; from_samples is also driven with a poll-counting non-fused iterator (exactly N items on success, no poll after the first None).",
+    "Sample level: add_amp / mul_amp / to_signed_sample / to_float_sample for all 14 formats on boundary-biased and random operands (valid by construction), all values of the 8/16-bit formats against the identity operands (offset 0, offsets landing on MIN/MAX, gains 0, 1, 0.5). Frame level: every Frame method for every width 1..=32 (u8, i16, U48, f32), widths 1/2/5/32 and the bare-sample frame for all 14 formats; closures record their call order and arguments, channel contents are pairwise distinct, from_samples is driven with every short and long iterator length and with exact / (0, None) / (k < N, None) size hints, the channels() iterator is also used positionally (nth, skip, step_by) and its len() is read before every next() and after exhaustion, clones of it taken mid-way continue correctly, channels_mut() is also walked in reverse and from both ends; from_samples is also driven with a poll-counting non-fused iterator (exactly N items on success, no poll after the first None).",
     "Trusted: the conversion references of C01/C02, native + and * of the host in the companion type. The 14 x 32 product of array instantiations is covered as 4 x 32 + 14 x 4 (array frames are one generic impl).",
     "DESIGN.md §4 C03")
 
@@ -40,19 +40,19 @@ add("C06", "vp_buf (+ libFuzzer target rb in the thorough tier)",
 
 add("C10", "vp_buf (+ libFuzzer target slice in the thorough tier)",
     "bounded-exhaustive enumeration + proptest with pointer/length/content oracles and a counting allocator",
-    "Every N in 1..=32 x six formats (1/2/4/8-byte, incl. newtypes) x every length 0..=2N+1 x shared/mutable/boxed through every entry point (free functions and trait methods), plus random lengths up to 4096, the viewed range sitting at a non-zero offset inside a larger buffer (so that an empty range still has a real address and nothing outside the range may change): Some iff N divides L, L/N frames, same memory, frame i channel c == sample i*N+c, a write through the mutable view changes exactly that sample, inverse view restores pointer and length; boxed conversions: pointer preserved, zero allocator events on success, every byte released after success-and-drop and after a failed conversion. In-place ops on eight frame types (incl. [i32;2] and [i64;1] with values wider than their float companion's mantissa), closures recording their arguments (call k is about element k): every length pair up to 6x6 and random lengths: equal to the element-wise frame op, and a length mismatch panics with the destination bit-identical.",
+    "Every N in 1..=32 x six formats (1/2/4/8-byte, incl. newtypes) x every length 0..=2N+1 x shared/mutable/boxed through every entry point (free functions and trait methods), plus random lengths up to 4096, the viewed range sitting at a non-zero offset inside a larger buffer (so that an empty range still has a real address and nothing outside the range may change): Some iff N divides L, L/N frames, same memory, frame i channel c == sample i*N+c, a write through the mutable view changes exactly that sample, inverse view restores pointer and length; boxed conversions: pointer preserved, zero allocator events on success, every byte released after success-and-drop and after a failed conversion. In-place ops on eight frame types (incl. [i32;2] and [i64;1] with values wider than their float companion's mantissa), closures recording their arguments (call k is about element k), zip_map_in_place also with a second slice of a different frame type: every length pair up to 6x6 and random lengths: equal to the element-wise frame op, and a length mismatch panics with the destination bit-identical.",
     "Trusted: the counting allocator (self-tested), pointer comparison, std's unsafe-precondition checks in the debug-assertion build.",
     "DESIGN.md §4 C10")
 
 add("C12", "vp_buf (+ libFuzzer target fork in the thorough tier)",
     "schedule enumeration (all valid interleavings to a bounded length) + proptest schedules against an index-coded probe source",
-    "Every interleaving of the two branches of every length up to 16 (thorough 20) whose lead stays within the capacity, capacities 1..=4 (5), by_ref and by_rc, every such schedule up to length 9 (12) x every re-split point, plus random run-structured schedules of up to 400 pulls with capacity up to 64; after every pull: the frame returned is the branch's own k-th source frame, the probe was pulled max(pulls_A, pulls_B) times, pending_frames equals the lag. fork() over a non-empty ring buffer must panic; the empty ring buffer may start at any backing slot; the source may be endless or finite (same invariants across its end). One by_rc branch is dropped after every prefix of every valid schedule (length <= 8) and the survivor must still see every source frame in order.",
+    "Every interleaving of the two branches of every length up to 16 (thorough 20) whose lead stays within the capacity, capacities 1..=4 (5), by_ref and by_rc, every such schedule up to length 9 (12) x every re-split point, plus random run-structured schedules of up to 400 pulls with capacity up to 64; after every pull: the frame returned is the branch's own k-th source frame, the probe was pulled max(pulls_A, pulls_B) times, pending_frames equals the lag. fork() over a non-empty ring buffer must panic; the empty ring buffer may start at any backing slot; the source may be endless, finite, or report exhaustion while still yielding frames (same invariants across its end); the Fork may be cloned mid-use and the clone split. One by_rc branch is dropped after every prefix of every valid schedule (length <= 8) and the survivor must still see every source frame in order.",
     "Trusted: the probe source (frames encode their index). Schedules are orders of next() calls on one thread (the types are !Sync), which the harness owns completely.",
     "DESIGN.md §4 C12")
 
 add("C13", "vp_buf (+ libFuzzer target bus in the thorough tier)",
     "model-based testing: all operation sequences to a bounded depth + proptest histories against a position model, backlog observed through a cfg-guarded hook",
-    "Every applicable sequence of send / next(i) / drop(i) up to length 9 (thorough 11) over at most 3 live outputs (infinite and 3-frame source), plus random run-structured sequences of up to 300 operations over up to 6 outputs; after every operation: frame returned == source frame at the output's position, probe pulls == P, pending_frames == P - position, is_exhausted, and Bus::verif_backlog_len() == P - min live position (0 when none). In a quarter of the random cases, and after the last send of every enumerated sequence, the Bus handle itself is dropped while its outputs live on.",
+    "Every applicable sequence of send / next(i) / drop(i) up to length 9 (thorough 11) over at most 3 live outputs (infinite and 3-frame source), plus random run-structured sequences of up to 300 operations over up to 6 outputs; after every operation: frame returned == source frame at the output's position, probe pulls == P, pending_frames == P - position, is_exhausted, and Bus::verif_backlog_len() == P - min live position (0 when none). In a quarter of the random cases, and after the last send of every enumerated sequence, the Bus handle itself is dropped while its outputs live on; sources may report exhaustion while still yielding index-coded frames.",
     "Trusted: the position model (15 lines), the probe source; the hook is a read-only accessor compiled only with --cfg rustaudio_dasp_verif.",
     "DESIGN.md §4 C13")
 
@@ -64,67 +64,67 @@ add("C14", "vp_buf",
 
 add("C04", "vp_sig",
     "proptest over typed adaptor trees (program generation) against a compositional pointwise model with instrumented sources",
-    "Random adaptor trees to depth 4 (thorough 7) over 8 frame types, built from the real dasp adaptors on type-erased children (map, scale/offset and their per-channel variants, clip_amp, inspect, delay, by_ref via a throw-away adaptor on a borrow, zip_map, add_amp, mul_amp), plus a catalogue of every single adaptor and every pair; frame k must equal the composition of the frame operations on frame k of the sources, clip_amp an independent clamp, delay(k) k equilibrium frames; after every output frame every probe's pull counter must have advanced by exactly one (zero under a delay still emitting silence) and every inspect closure must have been called exactly once per frame that reached it. A separate sub-check drives clip_amp with MIN / MAX / boundary values of all 14 formats x boundary thresholds; another drives the gain / offset adaptors (scale_amp, scale_amp_per_channel, mul_amp, offset_amp, offset_amp_per_channel, add_amp) with full-range values of all 14 formats and compares them with the Frame operation on the same frame.",
+    "Random adaptor trees to depth 4 (thorough 7) over 8 frame types, built from the real dasp adaptors on type-erased children (map, scale/offset and their per-channel variants, clip_amp, inspect, delay, by_ref via a throw-away adaptor on a borrow, zip_map, add_amp, mul_amp), plus a catalogue of every single adaptor and every pair; frame k must equal the composition of the frame operations on frame k of the sources, clip_amp an independent clamp, delay(k) k equilibrium frames; is_exhausted() agrees with the stream model before every pull; after every output frame every probe's pull counter must have advanced by exactly one (zero under a delay still emitting silence) and every inspect closure must have been called exactly once per frame that reached it. A separate sub-check drives clip_amp with MIN / MAX / boundary values of all 14 formats x boundary thresholds; another drives the gain / offset adaptors (scale_amp, scale_amp_per_channel, mul_amp, offset_amp, offset_amp_per_channel, add_amp) with full-range values of all 14 formats and compares them with the Frame operation on the same frame.",
     "Trusted: the Frame operations (C03's subject) used by the model, the probe sources. Operands are small by construction so results stay in range.",
     "DESIGN.md §4 C04")
 
 add("C05", "vp_sig",
     "bounded-exhaustive catalogue + proptest trees against a stream-length model",
-    "Every single adaptor and every pair x source lengths 0..=12 (thorough 16) x 1..4 channels x iterator-backed and interleaved-sample sources with every incomplete-tail length x delays 0..=3 x every consumption mode (is_exhausted before/after each next with pulls past the end, until_exhausted, take(n), interleaved iterator, next_sample, lift), two-source adaptors with every (L1, L2) <= 6, plus random trees: exhaustion exactly at min source length (+ leading delays), equilibrium afterwards, iterators yield exactly the model length and then None on five further calls, interleaved output yields frames x channels samples in channel order. Sources include non-fused iterators (which yield items again after None: the signal must end exactly once); the interleaved output is also cloned after every possible number of samples; take / until_exhausted / the interleaved iterator obey the iterator laws (nth, skip, step_by, size_hint, count, last agree with next). The combining adaptors that are not tree nodes: mul_hz over every (source length <= 8, multiplier-signal length <= 12, ratio k/4 <= 3, floor|linear) is exhausted iff the multiplier signal is or a plain converter at the same ratio is; bus outputs under random pull schedules are exhausted iff they have received every source frame; a plain converter at every ratio k/4 <= 4 over sources of 0..=12 frames must end after ceil((R+1)/r) frames or one more; rate.hz(finite frequency signal) used as a signal is exhausted exactly when that signal is.",
+    "Every single adaptor and every pair x source lengths 0..=12 (thorough 16) x 1..4 channels x iterator-backed and interleaved-sample sources with every incomplete-tail length x delays 0..=3 x every consumption mode (is_exhausted before/after each next with pulls past the end, until_exhausted, take(n), interleaved iterator, next_sample, lift), two-source adaptors with every (L1, L2) <= 6, plus random trees: exhaustion exactly at min source length (+ leading delays), equilibrium afterwards, iterators yield exactly the model length and then None on five further calls, interleaved output yields frames x channels samples in channel order. Sources include non-fused iterators (which yield items again after None: the signal must end exactly once); the interleaved output is also cloned after every possible number of samples; take / until_exhausted / the interleaved iterator obey the iterator laws (nth, skip, step_by, size_hint, count, last agree with next). The combining adaptors that are not tree nodes: mul_hz over every (source length <= 8, multiplier-signal length <= 12, ratio k/4 <= 3, floor|linear) is exhausted iff the multiplier signal is or a plain converter at the same ratio is; bus outputs under random pull schedules are exhausted iff they have received every source frame; a plain converter at every ratio k/4 <= 4 over sources of 0..=12 frames must end after ceil((R+1)/r) frames or one more; rate.hz(finite frequency signal) used as a signal is exhausted exactly when that signal is; the silence after the end / in a delay lead-in / from take() padding is the amplitude-0 value of each of the 14 formats (stated without the library's constants); signals are also consumed through a &mut borrow; bus outputs are also attached while others lag.",
     "Trusted: the stream-length model (pointwise keeps, two-source min, delay adds).",
     "DESIGN.md §4 C05")
 
 add("C08", "vp_sig",
     "proptest + small exhaustive grid against an exact-rational position model with an instrumented source (exact regime ==, general regime derived tolerance)",
-    "Runs of up to 300 outputs (drift runs 2e4 / 1e6) over 5 frame formats, floor and linear interpolators, finite (1..60) and infinite sources, and nine ways of establishing the ratio (three constructors, the Signal methods, mul_hz with a control signal, the three setters before every frame). The model keeps P_n as an exact multiple of 2^-64. Exact regime (ratios k/2^m, grid-valued frames): pulls beyond priming == floor(P_n), floor output == source[floor(P_n)], linear output == exact blend (truncated toward zero for integer formats), is_exhausted() before every output, until_exhausted() count == model and in {ceil((R+1)/r), +1}, one control frame per output for mul_hz. The hz-pair entry points are called with (p x t, t) for 14 target rates t (powers of two, small odd numbers, common and uncommon audio rates) with p x t exact, incl. every whole-number ratio up to 200 and every quarter ratio up to 50, so the quotient source_hz / target_hz is exactly p. General regime (arbitrary ratios in [1e-3, 1e3]): the same with a tolerance of n*2^-51*(1+r_max) on the position.",
+    "Runs of up to 300 outputs (drift runs 2e4 / 1e6) over 5 frame formats, floor and linear interpolators, finite (1..60) and infinite sources, and nine ways of establishing the ratio (three constructors, the Signal methods, mul_hz with a control signal, the three setters before every frame). The model keeps P_n as an exact multiple of 2^-64. Exact regime (ratios k/2^m, grid-valued frames): pulls beyond priming == floor(P_n), floor output == source[floor(P_n)], linear output == exact blend (truncated toward zero for integer formats), is_exhausted() before every output, until_exhausted() count == model and in {ceil((R+1)/r), +1}, one control frame per output for mul_hz; source frames contain plateaus with odd integer values and the never-outside-the-interval clause is exact for integer formats in both regimes. The hz-pair entry points are called with (p x t, t) for 14 target rates t (powers of two, small odd numbers, common and uncommon audio rates) with p x t exact, incl. every whole-number ratio up to 200 and every quarter ratio up to 50, so the quotient source_hz / target_hz is exactly p. General regime (arbitrary ratios in [1e-3, 1e3]): the same with a tolerance of n*2^-51*(1+r_max) on the position.",
     "Trusted: the position model, the probe source, f64 exactness on the dyadic grid. The general regime cannot distinguish positions closer than the stated tolerance to an integer.",
     "DESIGN.md §4 C08")
 
 add("C20", "vp_sig",
     "bounded-exhaustive enumeration + proptest against closed-form references",
-    "Hann/Rectangle window functions on every phase k/2^m (m <= 10) and random phases in [0,1] for f64 and f32 phase types (value vs sin^2(pi p), range, symmetry, end points); Window::new(n) for n in 2..=64 and {100, 1000, 4096}; Windower over every (L, bin, hop) in 0..=40 x 2..=12 x 1..=14 x two windows x four frame formats (f64, [f32;2], i16, [u8;2]) plus random larger triples: chunk count == floor((L-b)/h)+1 (0 when L < b), chunk k's first b frames == frames[k*h+i] scaled by W(i/(b-1)), size_hint() before every next() brackets the number of chunks still to come, None is sticky; nth / skip / step_by on the Windower and clones of it taken mid-way see the same schedule; hops up to usize::MAX; Window and Windowed obey the iterator laws.",
+    "Hann/Rectangle window functions on every phase k/2^m (m <= 10) and random phases in [0,1] for f64 and f32 phase types (value vs sin^2(pi p), range, symmetry, end points); Window::new(n) for n in 2..=64 and {100, 1000, 4096}; Windower over every (L, bin, hop) in 0..=40 x 2..=12 x 1..=14 x two windows x four frame formats (f64, [f32;2], i16, [u8;2]) plus random larger triples: chunk count == floor((L-b)/h)+1 (0 when L < b), chunk k's first b frames == frames[k*h+i] scaled by W(i/(b-1)), size_hint() before every next() brackets the number of chunks still to come, None is sticky; nth / skip / step_by on the Windower and clones of it taken mid-way see the same schedule; clones of a Window and of a Windowed chunk taken after j frames continue where the original stands; hops up to usize::MAX; Window and Windowed obey the iterator laws.",
     "Trusted: libm sin for the reference shape; stated tolerances (1e-12 / 2e-7 / 1e-9*n); integer frames must be unchanged under the Rectangle window and otherwise lie between the truncated products of the signed amplitude with w -+ 3e-7.",
     "DESIGN.md §4 C20")
 
 add("C17", "vp_sig",
     "proptest + long deterministic runs against an exact accumulated-phase model; metamorphic/purity relations for noise",
-    "Oscillators driven at random and boundary rates with constant (ConstHz) and per-frame (Hz over an instrumented frequency signal) frequencies from 0 to 1e30 x rate (beyond 2^63), runs to 2000 frames plus 1e6-frame (thorough 2e7) tiny-step, huge-step, varying and exact-regime runs: phase in [0,1) and starting at 0, phase == frac(sum of steps) exactly in the exact regime (power-of-two rate, dyadic steps) and within the sum of one ulp of every addition so far (2^-52 x (phase + step) per frame) otherwise, steps down to 1e-19 (below 2^-52) and rates below 1 included, sine/saw/square against the observed phase, simplex noise in range and equal to its value at the same phase, one frequency frame consumed per output frame (also after the frequency signal has reported exhaustion). Noise: boundary seeds (0, 1, 2^32, 2^63, u64::MAX-k for k<=300) and random seeds: in range, no panic, reproducible on restart and clone, frame n of noise(s) == frame 0 of noise(s+n).",
+    "Oscillators driven at random and boundary rates with constant (ConstHz) and per-frame (Hz over an instrumented frequency signal) frequencies from 0 to 1e30 x rate (beyond 2^63), runs to 2000 frames plus 1e6-frame (thorough 2e7) tiny-step, huge-step, varying and exact-regime runs: phase in [0,1) and starting at 0, phase == frac(sum of steps) exactly in the exact regime (power-of-two rate, dyadic steps) and within the sum of one ulp of every addition so far (2^-52 x (phase + step) per frame) otherwise, steps down to 1e-19 (below 2^-52), subnormal steps (exact regime of their own) and rates below 1 included, sine/saw/square against the observed phase, simplex noise in range and equal to its value at the same phase, one frequency frame consumed per output frame (also after the frequency signal has reported exhaustion). Noise: boundary seeds (0, 1, 2^32, 2^63, u64::MAX-k for k<=300) and random seeds: in range, no panic, reproducible on restart and clone, frame n of noise(s) == frame 0 of noise(s+n).",
     "Trusted: libm sin/cos for the references; the phase observer is a second instance of the same Phase code (the model checks it against exact accumulation).",
     "DESIGN.md §4 C17")
 
 add("C11", "vp_sig (std) + vp_nostd (dasp_sample/frame/ring_buffer/rms with default-features = false)",
     "proptest operation histories + long runs against an exact windowed mean-square reference, in two feature configurations",
-    "Histories of push / push-squared / reset (up to 50 x N, max 3000 operations; long runs of 1e5, thorough 1e6 pushes with loud/quiet alternation; value profiles incl. loud, then far quieter but non-zero, then reset, then ordinary input) over 7 formats x 1/2/5 channels x window lengths 1..=64, 100, 1000. Exact regime (grid values k/64, libm sqrt): next_squared == mean and next == sqrt(mean) bit for bit; general regime: |next_squared - mean| within the derived bound u X^2 (2.2 T (N+1)/N + 5), next within the bound propagated through the square root (4u relative for libm; 7% + 2^-62 / 2^-500 for the no_std approximation); never negative or NaN; after reset() bit-identical to a fresh detector on the same subsequent input; current() == last next(); the signal adaptor bit-identical to the direct detector, also when pulled N+3 frames past the end of its source. The driver runs a std binary and a binary whose dasp crates are built without the std feature (a start-up self-check confirms which square root is linked) and merges their evidence.",
+    "Histories of push / push-squared / reset (up to 50 x N, max 3000 operations; long runs of 1e5, thorough 1e6 pushes with loud/quiet alternation; value profiles incl. loud / far quieter but non-zero / reset / ordinary, quiet throughout, first channel silent; constructed loud-quiet-reset-quiet histories for every format and window length; the detector may be replaced by its clone at any point) over 7 formats x 1/2/5 channels x window lengths 1..=64, 100, 1000. Exact regime (grid values k/64, libm sqrt): next_squared == mean and next == sqrt(mean) bit for bit; general regime: |next_squared - mean| within the derived bound u X^2 (2.2 T (N+1)/N + 5), next within the bound propagated through the square root (4u relative for libm; 7% + 2^-62 / 2^-500 for the no_std approximation); never negative or NaN; after reset() bit-identical to a fresh detector on the same subsequent input; current() == last next(); the signal adaptor bit-identical to the direct detector, also when pulled N+3 frames past the end of its source. The driver runs a std binary and a binary whose dasp crates are built without the std feature (a start-up self-check confirms which square root is linked) and merges their evidence.",
     "Trusted: f64 reference arithmetic on exact amplitudes (its own error is added to the bound). The general-regime bound grows with the number of pushes since the last reset; the exact regime compensates.",
     "DESIGN.md §4 C11")
 
 add("C19", "vp_sig",
     "bounded-exhaustive enumeration (rectifiers) + proptest histories (envelope) against exact and interval oracles; one open known finding excluded by construction",
-    "Rectifiers: every value of the 8/16-bit formats (minimum excluded, as the statement's premise), boundary sets and random values of the other ten formats, 1..=4 channels, functions and Rectifier impls: |signed amplitude|, max(s, eq), min(s, eq) exactly. Envelope: histories of up to 400 frames over 7 frame types x peak (three rectifiers) and rms (window 1..=32) detection x attack/release from {0, -0.0, 1e-30, 1e-3, 0.5, 1, 10, 1e4, 3.4e7, 1e9, +infinity, random} with set_attack_frames/set_release_frames at random steps, directly and through the detect_envelope adaptor: every output channel inside d + [g_lo, g_hi](l - d) with g = exp(-1/frames), between the previous envelope and the detected value, equal to the detected value for a zero time constant, prefix before the first parameter change identical to the unchanged run, adaptor bit-identical to the detector, also when pulled past the end of its source. Known finding F8 (i32 frames, gain rounding to 1.0, previous envelope at full scale -> overflow) is excluded by construction, counted, and reproduced by one deterministic probe that prints the KNOWN-FINDING line; any other failure is a violation.",
+    "Rectifiers: every value of the 8/16-bit formats (minimum excluded, as the statement's premise), boundary sets and random values of the other ten formats, 1..=4 channels, functions and Rectifier impls: |signed amplitude|, max(s, eq), min(s, eq) exactly. Envelope: histories of up to 400 frames over 7 frame types x peak (three rectifiers) and rms (window 1..=32) detection x attack/release from {0, -0.0, 1e-30, 1e-3, 0.5, 1, 10, 1e4, 3.4e7, 1e9, +infinity, random} with set_attack_frames/set_release_frames at random steps, directly and through the detect_envelope adaptor: every output channel inside d + [g_lo, g_hi](l - d) with g = exp(-1/frames), between the previous envelope and the detected value, equal to the detected value for a zero time constant, prefix before the first parameter change identical to the unchanged run, adaptor bit-identical to the detector, also when pulled past the end of its source; every named constructor (peak, peak_*_half_wave, peak_from_rectifier, rms) bit-identical to Detector::new. Known finding F8 (i32 frames, gain rounding to 1.0, previous envelope at full scale -> overflow) is excluded by construction, counted, and reproduced by one deterministic probe that prints the KNOWN-FINDING line; any other failure is a violation.",
     "Trusted: f64 exp for the reference gain (1e-5 relative allowance for the f32 powf), a second instance of the detector stage to observe d.",
     "DESIGN.md §4 C19, §5 F8")
 
 add("C18", "vp_sig",
     "proptest + depth/length grid with round-trip (ratio 1), metamorphic (superposition, scaling, reset) and range oracles",
-    "Depths 1..=16 (thorough 64), histories of 0..6 x depth frames incl. the priming phase, fractions {0, k/1024, random, 1-2^-53}, formats f64, f32, [f64;2], i16, i32 (float histories scaled by gains from 1e-30 to 1e6): (i) Converter at ratio exactly 1 (scale 1.0, or two equal rates through from_hz_to_hz / set_hz_to_hz) reproduces the source delayed by exactly depth frames within 1e-12 peak (exact for integer formats), for every depth and a grid of history lengths around depth; (ii) interp(A+B) ~ interp(A)+interp(B) and interp(2^k A) ~ 2^k interp(A) within derived rounding bounds; (iii) outputs finite and bounded, also through the converter at random ratios; (iv) constant input on a primed buffer with depth >= 4 within 1 % on a grid of 64 fractions; (v) after reset() silent and bit-identical to a fresh interpolator on any subsequent history.",
+    "Depths 1..=16 (thorough 64), histories of 0..6 x depth frames incl. the priming phase, fractions {0, k/1024, random, 1-2^-53}, formats f64, f32, [f64;2], i16, i32, I24 (integer histories at full scale incl. MIN / MAX at ratio 1, histories ending in runs of exact silence; float histories scaled by gains from 1e-30 to 1e6): (i) Converter at ratio exactly 1 (scale 1.0, or two equal rates through from_hz_to_hz / set_hz_to_hz) reproduces the source delayed by exactly depth frames within 1e-12 peak (exact for integer formats), for every depth and a grid of history lengths around depth; (ii) interp(A+B) ~ interp(A)+interp(B) and interp(2^k A) ~ 2^k interp(A) within derived rounding bounds; (iii) outputs finite and bounded, also through the converter at random ratios; (iv) constant input on a primed buffer with depth >= 4 within 1 % on a grid of 64 fractions; (v) after reset() silent and bit-identical to a fresh interpolator on any subsequent history.",
     "Trusted: the stated tolerances; integer inputs are limited to 0.15 full scale (overflow on full-scale integer input is outside the statement).",
     "DESIGN.md §4 C18")
 
 add("C09", "vp_graph (+ libFuzzer target graph in the thorough tier)",
     "bounded-exhaustive enumeration of small multigraphs + proptest graphs against a reachability / topological-order / functional-evaluation model with instrumented nodes",
-    "Every directed multigraph on up to 3 nodes (multiplicity 0..2 on each ordered pair incl. self-loops) x every output node, every digraph with self-loops on 4 nodes x every output node (thorough: every loop-free digraph on 5 nodes), single removals with slot reuse on stable graphs, and random graphs of up to 14 nodes with parallel edges, self-loops, removals, late nodes and edges, consecutive process calls with different output nodes on one reused processor of random capacity, Graph and StableGraph: processed set == reverse reachability, each node once; each invocation's input pointers == one per incoming edge from a different node, never the node's own buffers, and presenting all of the neighbour's buffers whatever the consumer's own channel count; mixers with 17..=80 incoming edges on a processor created with capacity 0..=5; for acyclic upstream subgraphs inputs first and buffers == functional evaluation; nodes own 0..=2 output buffers (zero-buffer nodes must still be processed); sources()/sinks() == live nodes without incoming / outgoing edges.",
+    "Every directed multigraph on up to 3 nodes (multiplicity 0..2 on each ordered pair incl. self-loops) x every output node, every digraph with self-loops on 4 nodes x every output node (thorough: every loop-free digraph on 5 nodes), single removals with slot reuse on stable graphs, and random graphs of up to 14 nodes with parallel edges, self-loops, removals, late nodes and edges, consecutive process calls with different output nodes on one reused processor of random capacity, Graph and StableGraph: processed set == reverse reachability, each node once; each invocation's input pointers == one per incoming edge from a different node, never the node's own buffers, and presenting all of the neighbour's buffers whatever the consumer's own channel count; mixers with 17..=80 incoming edges on a processor created with capacity 0..=5; optionally a node that panics (caught) during an earlier call on the same processor; for acyclic upstream subgraphs inputs first and buffers == functional evaluation; nodes own 0..=2 output buffers (zero-buffer nodes must still be processed); sources()/sinks() == live nodes without incoming / outgoing edges.",
     "Trusted: petgraph 0.5.1 as resolved by the repository's lock file; the harness edge list and reachability model. Input order is unspecified and not asserted.",
     "DESIGN.md §4 C09")
 
 add("C16", "vp_graph",
     "proptest + catalogue (kind x wrapper x channel layout) against per-node reference functions inside a real graph",
-    "Sum, SumBuffers, Pass, Delay, signal node and nested GraphNode, each through bare / &mut / Box / BoxedNode / BoxedNodeSend / Box<dyn FnMut> / Box<dyn Fn> / fn-pointer forms, with 0..6 inputs of 0..4 buffers, 0..4 output buffers (mismatched on purpose), 1..6 consecutive process calls with fresh contents from constant-writer source nodes (levels scaled by 2^e, e down to -143: quiet and subnormal signals), Delay rings of 1..200 samples per channel (shorter than, equal to and longer than a buffer), signal frames of 1..4 channels: Sum per channel over the inputs that have it, SumBuffers over all buffers, Pass copies and leaves surplus outputs (sentinel pattern) untouched, Delay == per-channel FIFO carried across calls, signal node de-interleaves one buffer length of frames per call, GraphNode == processing the same inner graph directly (inner graphs whose output node is a Sum, a Pass with a surplus buffer, or sits on a feedback loop through a delay), signal nodes over endless and over finite signals that end during the run, every wrapper bit-identical to the bare node.",
+    "Sum, SumBuffers, Pass, Delay, signal node and nested GraphNode, each through bare / &mut / Box / BoxedNode / BoxedNodeSend / Box<dyn FnMut> / Box<dyn Fn> / fn-pointer forms, with 0..6 inputs of 0..4 buffers, 0..4 output buffers (mismatched on purpose), 1..6 consecutive process calls with fresh contents from constant-writer source nodes (levels scaled by 2^e, e down to -143: quiet and subnormal signals; dense contents or impulses 193 samples apart with silent blocks between them; the node under test may carry an edge onto itself), Delay rings of 1..200 samples per channel (shorter than, equal to and longer than a buffer), signal frames of 1..4 channels: Sum per channel over the inputs that have it, SumBuffers over all buffers, Pass copies and leaves surplus outputs (sentinel pattern) untouched, Delay == per-channel FIFO carried across calls, signal node de-interleaves one buffer length of frames per call, GraphNode == processing the same inner graph directly (inner graphs whose output node is a Sum, a Pass with a surplus buffer, or sits on a feedback loop through a delay), signal nodes over endless and over finite signals that end during the run, every wrapper bit-identical to the bare node.",
     "Trusted: the reference functions; exact comparison on grid contents, n eps sum|x| otherwise. dasp_graph is built against the crates.io 0.11.0 dasp_* crates exactly as the repository resolves them.",
     "DESIGN.md §4 C16")
 
 add("C07", "vp_alloc",
     "scenario catalogue driven by enumeration + proptest parameters, observed with a counting global allocator (thread-local, armed regions)",
-    "28 scenarios covering sample conversions and arithmetic (incl. the operators of the eight custom-width integer types, in the debug-assertion build), every Frame method, borrowed slice views and in-place ops, Bounded/Fixed ring buffers over array / &mut / Vec / Box<[T]> storage (incl. extend from iterators of unknown length, shorter and longer than the buffer), rectifiers, RMS, envelope detectors, Floor/Linear/Sinc interpolators, window functions, every signal source and adaptor (incl. take / until_exhausted / interleaved samples / lift / by_ref), fork by_ref and by_rc branches, buffered, rate conversion with every interpolator and mul_hz, rms / detect_envelope adaptors, Window / Windower / Windowed, random adaptor-tree compositions, graphs of stock nodes and wrappers (Graph and StableGraph, cycles, nested GraphNode, alternating output nodes, a mixer with 260..1000 inputs and channel-count mismatches in both directions) after a warm-up process call, and the bus in lock-step (backlog and live bytes constant, also after an output joined and was dropped while everything was in step). State is constructed unarmed; 16..2000 operations (thorough: 2e5) run armed; allocs == reallocs == frees == 0 and the checksum equals the unarmed run's.",
+    "28 scenarios covering sample conversions and arithmetic (incl. the operators of the eight custom-width integer types, in the debug-assertion build), every Frame method, borrowed slice views and in-place ops, Bounded/Fixed ring buffers over array / &mut / Vec / Box<[T]> storage (incl. extend() from iterators whose size_hint is exact, a loose upper bound or unknown, and from iterators of unknown length, shorter and longer than the buffer), rectifiers, RMS, envelope detectors, Floor/Linear/Sinc interpolators, window functions, every signal source and adaptor (incl. take / until_exhausted / interleaved samples / lift / by_ref), fork by_ref and by_rc branches, buffered, rate conversion with every interpolator and mul_hz, rms / detect_envelope adaptors, Window / Windower / Windowed, random adaptor-tree compositions, graphs of stock nodes and wrappers (Graph and StableGraph, cycles, nested GraphNode, alternating output nodes, a mixer with 260..1000 inputs and channel-count mismatches in both directions) after a warm-up process call, and the bus in lock-step (backlog and live bytes constant, also after an output joined and was dropped while everything was in step). State is constructed unarmed; 16..2000 operations (thorough: 2e5) run armed; allocs == reallocs == frees == 0 and the checksum equals the unarmed run's.",
     "Trusted: the counting allocator (self-tested at start-up). An allocation in an operation outside the catalogue is invisible; the catalogue is listed in the evidence.",
     "DESIGN.md §4 C07")
 
